@@ -12,7 +12,7 @@
 (* so every bad event of the file is reported in one pass; the driver also *)
 (* checks that every line was consumed (number of states).                 *)
 (***************************************************************************)
-EXTENDS Suffix, Editor, TLC, Json, IOUtils
+EXTENDS Suffix, Editor, Pct, TLC, Json, IOUtils
 
 Rec == ndJsonDeserialize(IOEnv.TRACE)
 N == Len(Rec)
@@ -48,8 +48,21 @@ EditConforms(e) ==
     /\ e.panic = FALSE
     /\ e.post \in EditApply(e.fam, e.kind, e.pre, [op |-> e.op, arg |-> e.arg])
 
+(* ---- construction: verdict and components of random texts (C01, C02) ---- *)
+ParseConforms(e) ==
+    /\ e.panic = FALSE
+    /\ e.ok = InLang(e.ty, e.w)
+    /\ e.ok => e.p = Parts(e.w)
+(* ---- construction from bytes: the UTF-8 gate (C01, C14) ---- *)
+ParseBytesConforms(e) ==
+    /\ e.panic = FALSE
+    /\ e.ok = (WellFormedUtf8(e.bytes) /\ InLang(e.ty, Utf8Decode(e.bytes)))
+    /\ e.kept          \* accepted text / returned payload is the input, byte for byte
+
 Conforms(e) ==
     CASE e.ev = "rel"    -> RelConforms(e)
+      [] e.ev = "parse"  -> ParseConforms(e)
+      [] e.ev = "parse_bytes" -> ParseBytesConforms(e)
       [] e.ev = "edit"   -> EditConforms(e)
       [] e.ev = "suffix" -> SuffixConforms(e)
       [] OTHER -> FALSE
